@@ -8,7 +8,18 @@ from common import Report, Machinery, write_ndjson
 KF1_TEXT = "early/symbolic partial whose simplification used the rewrite NthRoot(NthPower(u,m),n) => NthPower(NthRoot(u,n),m) with n and m even"
 
 
+REPLAY = None
+
+
+def replay(pid, path):
+    global REPLAY
+    REPLAY = [json.load(open(path))["case"]["tree"]]
+    return run(pid, "quick", 0)
+
+
 def exprs_for(tier, seed):
+    if REPLAY is not None:
+        return list(REPLAY)
     rnd = random.Random(4000 + seed)
     quick = tier == "quick"
     u2 = gen.over(gen.d1q(), ks=(1, 2, 3, 4, 5, 6), nary3=[(gen.X, gen.Y, gen.C[1]), (gen.X, gen.X, gen.Y), (gen.X, gen.C[0], gen.Y)])
